@@ -357,7 +357,7 @@ func TestC05(t *testing.T) {
 			g := &c05Gen{budget: rapid.IntRange(3, 25).Draw(rt, "budget")}
 			g.pick = func(label string, n int) int { return rapid.IntRange(0, n-1).Draw(rt, label) }
 			src := g.program(rapid.IntRange(1, 4).Draw(rt, "depth"), rapid.IntRange(1, 3).Draw(rt, "top"))
-			c.c05Program(s, "rand-skeletons", src, g.deepBrk)
+			c.c05Program(s, "rand-skeletons", place(src, drawPlacement(rt)), g.deepBrk)
 		})
 	})
 }
